@@ -357,6 +357,8 @@ class IterV:
         self.fn = fn
         self.kind = kind
         self.consumed = False
+        self.items = None  # materialised by next()
+        self.pos = 0
         self.uid = fresh_id()
 
     def __repr__(self):
